@@ -15,10 +15,10 @@ open Attrs.Init (Val Conv Event EventId)
 /-- a clean well-formed chain always defines, and outside K6 the class under test either wrote the hook table
     `sa_attrs` of its own fields and its own class-level argument, or has `object.__setattr__` and an
     empty table -/
-theorem C06_leaf (c : Case) (hw : wf c = true) (hc : clean c.classes = true) (hk : known c = []) :
-    ∃ rt l e0, defineChain c.classes = .ok rt ∧ Leaf c.classes rt l e0 := by
-  have hcl : c.classes.all cleanCls = true := by simpa [clean, cleanCls] using hc
-  obtain ⟨rt, hd, _⟩ := defineFrom_clean c.classes CState.root 0 rfl hcl
+theorem C06_leaf (c : Case) (hw : wf c = true) (hc : clean c.cls = true) (hk : known c = []) :
+    ∃ rt l e0, defineChain c.cls = .ok rt ∧ Leaf c.cls rt l e0 := by
+  have hcl : c.cls.all cleanCls = true := by simpa [clean, cleanCls] using hc
+  obtain ⟨rt, hd, _⟩ := defineFrom_clean c.cls CState.root 0 rfl hcl
   obtain ⟨l, e0, hl⟩ := leaf_of_clean c rt hw hc hd (known_nil c rt hd hk)
   exact ⟨rt, l, e0, hd, hl⟩
 
@@ -126,11 +126,11 @@ theorem C06_mixin_only_layout (b : CState) (c : Cls) (m : Option Bool) :
     hook table only if somewhere above it a *slotted* attrs class sits directly below a *plain* class —
     the "slotted confused" shape (K6); every other route resets or overwrites the inherited `__setattr__`. -/
 theorem C06_inherits_only_when_confused (c : Case) (rt : CState) (hw : wf c = true)
-    (hc : clean c.classes = true) (hd : defineChain c.classes = .ok rt) (hi : rt.inheritsHooks = true) :
-    Confused c.classes := by
-  have hcl : c.classes.all cleanCls = true := by simpa [clean, cleanCls] using hc
+    (hc : clean c.cls = true) (hd : defineChain c.cls = .ok rt) (hi : rt.inheritsHooks = true) :
+    Confused c.cls := by
+  have hcl : c.cls.all cleanCls = true := by simpa [clean, cleanCls] using hc
   have hroot : HookInv [] CState.root := by intro h; simp [CState.root, Impl.isHooked] at h
-  have := hookInv_chain c.classes [] CState.root 0 rt hroot rfl hcl hd
+  have := hookInv_chain c.cls [] CState.root 0 rt hroot rfl hcl hd
   simp only [List.nil_append] at this
   unfold CState.inheritsHooks at hi
   simp only [Bool.and_eq_true, Bool.not_eq_true'] at hi
@@ -200,6 +200,38 @@ theorem C06_stores_chain_assign (cs : List Cls) (rt : CState) (l : Cls) (e0 : Ef
       intro m hm
       rw [heq, get_set]
       simp [hm]
+
+/-! ## hook expressions as trees -/
+
+/-- **C06_tree_runs_flat**: a hook expression of any shape — pipes nested in pipes at any position and depth —
+    called the way `setters.pipe` objects call their members (a member pipe runs its own members before the
+    outer pipe goes on) does exactly what the flat pipe of its leaves, depth-first left to right, does: same
+    callbacks in the same order with the same intermediate values, same result, same behaviour under a fault
+    at any position -/
+theorem C06_tree_runs_flat (rv : Bool) (fault : Option Nat) (f : Field) (h : Hook) (tr : List Event) (v : Val) :
+    runHook rv fault f h tr v = runPipe rv fault f h.flatten tr v := runHook_flat rv fault f h tr v
+
+/-- **C06_flatten_order**: flattening preserves the written left-to-right order: what stands left of a nested
+    pipe comes before all of its members, what stands right of it after all of them; a flat list is itself -/
+theorem C06_flatten_order (pre inner post : List Hook) :
+    (Hook.pipe (pre ++ [Hook.pipe inner] ++ post)).flatten =
+      flattenList pre ++ flattenList inner ++ flattenList post := by
+  simp [Hook.flatten, flattenList_append, flattenList]
+
+theorem C06_flatten_flat (l : List Setter) : (Hook.pipe (l.map Hook.leaf)).flatten = l := by
+  simp [Hook.flatten, flattenList_leaves]
+
+/-- an undisturbed hook tree stores the left-to-right fold over its leaves -/
+theorem C06_stores_tree (rv : Bool) (f : Field) (h : Hook) (v : Val) (hfz : h.flatten.contains .frozen = false) :
+    runHook rv none f h [] v =
+      (chainEvents rv f h.flatten v, .ok (h.flatten.foldl (fun v s => pureApply f s v) v)) := by
+  rw [C06_tree_runs_flat, C06_stores_chain rv f _ v hfz]
+
+/-- `[pipe(a, b), c]` is a, b, c and `[a, pipe(b, c), d]` is a, b, c, d -/
+example (a b c d : Setter) :
+    (Hook.pipe [.pipe [.leaf a, .leaf b], .leaf c]).flatten = [a, b, c] ∧
+    (Hook.pipe [.leaf a, .pipe [.leaf b, .leaf c], .leaf d]).flatten = [a, b, c, d] ∧
+    (Hook.pipe [.pipe [.pipe [.leaf a, .leaf b], .leaf c], .leaf d]).flatten = [a, b, c, d] := ⟨rfl, rfl, rfl⟩
 
 /-! ## C06_failure_atomic -/
 
@@ -514,13 +546,13 @@ theorem C06_normalisation_invisible (attrs : List Field) (e : Eff) (f : Field) (
     every step of every history — values, callback trace, exception identity, construction clause. -/
 theorem C06_model_meets_spec (c : Case) (hw : wf c = true) (hk : known c = []) : spec c (model c) = true := by
   unfold spec
-  have hwf : c.classes.all wfCls = true := by
+  have hwf : c.cls.all wfCls = true := by
     unfold wf at hw; simp only [Bool.and_eq_true] at hw; exact hw.1
-  have hrej : rejectOk (model c).defErr 0 [] c.classes = true := by
+  have hrej : rejectOk (model c).defErr 0 [] c.cls = true := by
     rw [model_defErr]
-    exact rejectOk_model c.classes [] CState.root 0 inv_root hwf
+    exact rejectOk_model c.cls [] CState.root 0 inv_root hwf
   rw [hrej, Bool.true_and]
-  cases hc : clean c.classes with
+  cases hc : clean c.cls with
   | false => rfl
   | true =>
     simp only [if_true]
@@ -531,9 +563,9 @@ theorem C06_model_meets_spec (c : Case) (hw : wf c = true) (hk : known c = []) :
         runHistory rt c.runValidators c.fault c.faultKind (probes rt c.history) 0
           (if c.preset then presetStore rt else []) c.history := by
       unfold model; rw [hd]
-    rw [hde, hsteps, initSnap_eq c.classes rt hl.inv]
+    rw [hde, hsteps, initSnap_eq c.cls rt hl.inv]
     simp only [beq_self_eq_true, Bool.true_and]
-    apply steps_ok c.classes rt l e0 hl hnk
+    apply steps_ok c.cls rt l e0 hl hnk
     intro f hf
     unfold probes
     rw [List.mem_append]
@@ -546,7 +578,7 @@ theorem C06_model_meets_spec (c : Case) (hw : wf c = true) (hk : known c = []) :
 /-- the K6 witness: `A(attr.s, on_setattr=hook)` ← plain `P` ← `S(attr.s, slots=True)`; `s.x = t1` -/
 def k6Witness : Case :=
   { classes := [
-      { kind := .attrs, isDefine := false, frozenArg := false, slots := false, clsOn := .bare (.user 50),
+      { kind := .attrs, isDefine := false, frozenArg := false, slots := false, clsOn := .hook (.leaf (.user 50)),
         ownSetattr := false, autoDetect := false,
         fields := [{ name := "x", tag := "x@0", conv := none, validators := 0, onSet := .unset }] },
       { kind := .plain, isDefine := false, frozenArg := false, slots := false, clsOn := .unset,
@@ -563,24 +595,24 @@ theorem C06_known_slotted_confused_witness :
   refine ⟨by decide, by decide, by decide⟩
 
 /-- the witness has the shape `C06_inherits_only_when_confused` names -/
-example : Confused k6Witness.classes :=
-  ⟨[k6Witness.classes[0]], k6Witness.classes[1], k6Witness.classes[2], [], rfl, rfl, rfl, rfl⟩
+example : Confused k6Witness.cls :=
+  ⟨[k6Witness.classes[0].flat], k6Witness.classes[1].flat, k6Witness.classes[2].flat, [], rfl, rfl, rfl, rfl⟩
 
 /-- non-vacuity: the same hierarchy with a dict subclass is well-formed, clean and outside K6 — the
     hypotheses of the theorems above are satisfiable, and there the subclass has `object.__setattr__` -/
 example :
     let c : Case := { k6Witness with classes := k6Witness.classes.take 2 ++
       [{ (k6Witness.classes[2]) with slots := false }] }
-    wf c = true ∧ clean c.classes = true ∧ known c = [] ∧
-      (match defineChain c.classes with
+    wf c = true ∧ clean c.cls = true ∧ known c = [] ∧
+      (match defineChain c.cls with
        | .ok rt => rt.impl == .object
        | .error _ => false) = true := by
   refine ⟨by decide, by decide, by decide, by decide⟩
 
 /-- non-vacuity of `C06_rejected` / `C06_accepted`: a frozen class with a class-level hook must be rejected,
     a plain mutable one must be accepted -/
-example : mustReject [] { (k6Witness.classes[0]) with frozenArg := true } = true ∧
-    mustAccept [] (k6Witness.classes[0]) = true := by
+example : mustReject [] { (k6Witness.classes[0]).flat with frozenArg := true } = true ∧
+    mustAccept [] (k6Witness.classes[0]).flat = true := by
   refine ⟨by decide, by decide⟩
 
 end Attrs.C06
